@@ -183,6 +183,15 @@ pub fn run(ctx: &Ctx) -> i32 {
                 files = vec![("main.s".to_string(), t)];
                 acc.count("function_first_family_programs", 1);
             }
+            if k % 8 == 7 {
+                // a statement that expands to two instructions (`lw rd, label`, `sw rs, label, tmp`, `sgez rd, rs`),
+                // reached by falling through a piece of the data segment: what is said about the statement
+                // as a whole is said once, not once per instruction
+                let stmt = *rng.pick(&["lw a0, tbl", "sw a1, tbl, t0", "sgez a0, a1", "lb a0, tbl", "sh a1, tbl, t2"]);
+                let t = format!("# two\nmain:\n    li a1, 1\n.data\n    {stmt}\n.text\n    add a0, a0, a1\n    li a7, 1\n    ecall\n    li a7, 10\n    ecall\n.data\ntbl: .word 1\n");
+                files = vec![("main.s".to_string(), t)];
+                acc.count("two_instruction_statement_family_programs", 1);
+            }
             acc.evaluations += 1;
             let replay = json!({"files": files});
             // ---------- library, fresh threads
